@@ -49,7 +49,7 @@ package ecs
 
 //@ func (*storage).RemoveEntity
 //@   serves C01 C02 C04 C09 C10
-//@   requires indexInv(s) && epIssued(&s.entityPool)[entity] && s.observers != nil && len(s.observers.hasObservers) == 256
+//@   requires indexInv(s) && epIssued(&s.entityPool)[entity] && s.observers != nil && obsShape(s.observers)
 //@   requires lockInv(&s.locks) && s.locks.locks.bits != 0xffffffffffffffff
 //@   panics   !alive(&s.entityPool, entity)
 //@   assert   HasObservers live: epRank(&s.entityPool)[uint32(entity.id)] == 0 && s.entityPool.reserved <= entity.id && s.entityPool.entities[entity.id] == entity
